@@ -26,7 +26,7 @@ ASSEMBLE_LOCK = threading.Lock()
 REPO = os.environ.get("VERIF_REPO", "/repo")
 VERUS = shutil.which("verus") or "/usr/local/bin/verus"
 
-PROOF_FAIL = re.compile(r"(postcondition|precondition|invariant|decreases) not satisfied|unable to prove post-condition of closure|assertion failed|possible arithmetic|possible division|possible bit shift|"
+PROOF_FAIL = re.compile(r"(postcondition|precondition|invariant|decreases) not satisfied|precondition not met|unable to prove post-condition of closure|assertion failed|possible arithmetic|possible division|possible bit shift|"
                         r"could not prove termination|decreases not satisfied|unreachable|"
                         r"failed precondition|cannot show|might not be|recommendation not met: value may be out of range")
 RLIMIT = re.compile(r"[Rr]esource limit|rlimit")
@@ -261,6 +261,8 @@ def _run_verus_unit(prop, u, workdir, variant, extra):
     # `//@ expect_fail NAME` guards: these proof fns restate a theorem's hypotheses with `ensures false`; Verus reports
     # them as errors (they MUST fail); they are removed from the error list and counted as guards
     ef = set(info.get("expect_fail", []))
+    if ef and not res["functions"]:
+        ef = set()   # Verus stopped before verifying anything (compile error): the guards say nothing, the error decides
     if ef:
         failed_fns = {f["function"].split("::")[-1] for f in res["functions"] if f.get("success") is False}
         res["expect_fail"] = {n: (n in failed_fns) for n in ef}
